@@ -61,6 +61,8 @@ def run(ctx, res):
             res.oracle_runs += 1
             for what in S.oracle_query(c["spec"], q):
                 viol(res, what, {"nums": [str(x) for x in c["spec"]["nums"]], "styles": c["spec"]["styles"],
+                                 "before_these_calls": c.get("prelude"), "pre_seed": c.get("pre_seed"),
+                                 "seed": c["spec"].get("seed"), "built_by_from_dict": bool(c["spec"].get("via_dict")),
                                  "query": C.jsonable(q)})
             if q["sel"][0] == "ok" and 0 < len(q["sel"][1]) < c["spec"]["n"]:
                 res.nontrivial.add(repr((c["spec"]["nums"], c["spec"]["styles"], q["sizes"], q["prev"])))
